@@ -189,6 +189,16 @@ class Gen:
         if self.profile == 'promotion' and self.n >= 2:
             self.emit('DRAIN 60')
             self.emit('OP 0 promote %d' % r.randint(1, self.n - 1))
+            marked_alive = sorted(h for h in self.alive if h in self.marked)
+            if marked_alive and self.wtypes() and r.random() < 0.6:
+                # the old host is still the only authority its clients know: a write one frame into the
+                # hand-over (PromoteToHost delivered, NewHost not yet sent) must reach everybody, the
+                # promoted peer included, over the old links. (Later writes inside the hand-over window
+                # are outside the property: operations are resumed AFTER the hand-over.)
+                self.emit('ROUND 1')
+                h = r.choice(marked_alive)
+                t = r.choice(self.wtypes())
+                self.emit('OP 0 write %d %d %d' % (h, t, self.fresh_val(t)))
             self.emit('ROUND %d' % r.randint(10, 16))
             if self.n > 2:
                 # the other clients move to the new host without telling the old one: it learns of their
@@ -738,6 +748,56 @@ def join(seed, nops=14):
     lines.append('SLEEP 60')
     lines.append('DRAIN 80')
     return '\n'.join(lines) + '\n', dict(joiner=joiner, enabled={p: sw for p in range(n)}, types=types)
+
+
+def asset_burst(seed):
+    """C06: a scene load — one peer publishes 10..16 assets of one class (and a few others) in ONE frame;
+    the receivers handle the announcements, then stall while all the downloads complete, then go on:
+    many finished downloads of one class are waiting for a single run of process_*_assets."""
+    r = random.Random(seed)
+    n = r.choice([2, 3, 3])
+    lines = _header(r, n, [0], v6=(r.random() < 0.2))
+    for p in range(n):
+        lines.append('OP %d switches 1 1 1' % p)
+        lines.append('OP %d setup' % p)
+    lines.append('ROUND %d' % r.randint(6, 9))
+    lines.append('DRAIN 40')
+    pub = r.choice(range(n))
+    kk = r.choice([1, 2, 3])
+    val = 500
+    k = r.randint(10, 16)
+    for j in range(k):
+        val += 1
+        lines.append('OP %d addasset %d %d %d' % (pub, kk, 1000 * kk + j, val))
+    for j in range(r.randint(0, 3)):
+        val += 1
+        k2 = r.choice([0, 1, 2, 3])
+        lines.append('OP %d addasset %d %d %d' % (pub, k2, 5000 + 10 * k2 + j, val))
+    lines.append('FRAME %d 2' % pub)
+    others = [q for q in range(n) if q != pub]
+    # the host first (it relays), every receiver handles the announcements and then stalls
+    for q in sorted(others):
+        lines.append('FRAME %d 2' % q)
+    lines.append('SLEEP %d' % r.choice([300, 500]))
+    if pub != 0 and n > 2:
+        lines.append('FRAME 0 1')
+        for q in others:
+            if q != 0:
+                lines.append('FRAME %d 2' % q)
+        lines.append('SLEEP 300')
+    lines.append('ROUND 3')
+    if r.random() < 0.5:
+        # a second wave: overwrites of some of them by the same publisher
+        for j in r.sample(range(k), r.randint(1, min(10, k))):
+            val += 1
+            lines.append('OP %d addasset %d %d %d' % (pub, kk, 1000 * kk + j, val))
+        lines.append('FRAME %d 2' % pub)
+        for q in sorted(others):
+            lines.append('FRAME %d 2' % q)
+        lines.append('SLEEP 400')
+    lines.append('SLEEP 100')
+    lines.append('DRAIN 80')
+    return '\n'.join(lines) + '\n', dict(enabled={p: (1, 1, 1) for p in range(n)})
 
 
 def session(seed):
